@@ -72,6 +72,20 @@ CLAIMED = {
             "Trusted: the witness tables (their completeness is checked against the constructors' column validations). "
             "Not decided: perturbation invariance of results on data.",
             "DESIGN.md 6/C10"),
+    "C17": ("constructor-call binding, CFG ordering and def-use of the RecordMap wiring; sibling signature/return-shape comparison of the two data models (ast)",
+            "inverse() exchanges blocks_in/blocks_out under the strictness assertion; transform() applies blocks→rows before "
+            "rows→blocks, each under its own guard with its own field, chaining the result (same order and pairing in the SQL "
+            "realisation); compose() applies `other` first; both data models implement the conversions with the abstract signature.",
+            "Narrow claim: wiring only. Not decided: that pivot/unpivot are mutually inverse on data, Pandas/Polars agreement.",
+            "DESIGN.md 6/C17"),
+    "C19": ("ownership / may-alias dataflow on the statement CFG with fresh-producer cut-offs; in-place effect catalogue (ast)",
+            "No in-place effect reaches an alias of a caller-owned frame in the table-source steps, RecordMap.transform and the "
+            "user entry points, and table steps return fresh frames; none of the ~60 executor / SQL-generator / expression-actor "
+            "functions mutates the operator node it is handed (attribute store or in-place operation on an alias of a node field), "
+            "and no node method other than __init__ stores into self.",
+            "Trusted: the in-place effect catalogue (pandas/python mutators) and fresh-producer assumption for calls. "
+            "Not decided: value-level repeatability (third-party determinism), dtype preservation.",
+            "DESIGN.md 6/C19"),
     "C20": ("path enumeration over insert/execute of both data spaces with partial evaluation of branch conditions into overwrite/absence facts; dominance for store-after-success (ast CFG)",
             "Every store effect on the key->table binding (subscript stores, insert_table/create_table, model_table) is "
             "reached only on paths that established 'overwrite allowed' or 'key absent'; auto-generated keys pass a freshness "
